@@ -889,7 +889,7 @@ func (g *evGen) withControl() {
 		others := []int{nextAddr, nextAddr + 1, 400}
 		switch x := r.Intn(100); {
 		case x < 40:
-			cls := "refresh"
+			cls := "evrefresh"
 			// change the topology, then refresh
 			for c := 1 + r.Intn(2); c > 0; c-- {
 				switch y := r.Intn(100); {
@@ -948,7 +948,7 @@ func (g *evGen) withControl() {
 				}
 			}
 		case x < 44:
-			g.emit("evrefreshfail", "refresh/query-fails", true)
+			g.emit("evrefreshfail", "evrefresh/query-fails", true)
 		case x < 70:
 			g.runBatch(g.batch(known, others))
 		case x < 90:
